@@ -76,8 +76,21 @@ PSEUDO = {"PUSH [tag]": "PUSHTAG", "PUSH #[$]": "PUSHSUBSIZE", "PUSH [$]": "PUSH
           "PUSHIMMUTABLE": "PUSHIMMUTABLE"}
 
 
+def canon_operand(kind, v):
+    """operands of pseudo-pushes are compared by the numeric value the front-end gives them:
+    tags are kept as decimal strings, every other operand is read as hexadecimal"""
+    if v is None:
+        return ""
+    if isinstance(v, int):
+        return str(v)
+    try:
+        return str(int(str(v), 10 if kind == "PUSH [tag]" else 16))
+    except ValueError:
+        return str(v)
+
+
 def derived_word(kind, operand, nbytes=32):
-    h = hashlib.sha256(("%s|%s" % (kind, operand)).encode()).digest()
+    h = hashlib.sha256(("%s|%s" % (kind, canon_operand(kind, operand))).encode()).digest()
     return list(h[:nbytes])
 
 
@@ -95,8 +108,7 @@ def proj_instr(bc):
         out["op"] = "PUSH0"
     elif d in PSEUDO:
         out["op"] = PSEUDO[d]
-        operand = bc.real_value if d == "PUSHLIB" else bc.value
-        out["w"] = derived_word(d, operand if operand is not None else "", 20 if d in ("PUSHLIB", "PUSHDEPLOYADDRESS") else 32)
+        out["w"] = derived_word(d, bc.value, 20 if d in ("PUSHLIB", "PUSHDEPLOYADDRESS") else 32)
     elif d == "ASSIGNIMMUTABLE":
         out["w"] = derived_word(d, bc.value, 32)
     elif d.startswith("DUP") and d[3:].isdigit():
